@@ -413,7 +413,10 @@ def history_cases(kind, rng, n):
             prefix = mgmt.drop_prefix_aliases(kind, rows, gen.history(rng.randint(2, 12), final_probe=False))
             # in-between queries: only the RBAC queries and enforce (a get_filtered_policy whose filter reaches past a
             # rule raises IndexError by design - not this property's business)
-            prefix = [o for o in prefix if o[0] < 50 or o[0] in (50, 55, 56, 57, 58, 60, 61, 62, 63, 64)]
+            # (also dropped: enforce requests of the wrong size and, on domain models, the implicit queries with the empty
+            # string as domain - "" means "no domain filter", it is not a domain of the universe)
+            prefix = [o for o in prefix if o[0] < 50 or (o[0] == 50 and len(o[1]) == kind.r_arity) or
+                      (o[0] in (55, 56, 57, 58, 60, 61, 62, 63, 64) and not (kind.dom and o[0] in (60, 61) and o[2] == 0))]
         mentioned = list(rows)
         for op in prefix:
             if op[0] == 1 and op[1] in (0, 1) and len(op[2]) >= 2:
